@@ -376,7 +376,14 @@ pub fn mutate_doc(rng: &mut Rng, doc: &Value, other_names: &[String], cells: &mu
             7 => {
                 if let Some(k) = key {
                     if let Some(b) = o.get_mut(&k).and_then(|b| b.as_object_mut()) {
-                        if let Some(f) = b.keys().next().cloned() {
+                        // numbers spelled as decimal strings, first of all
+                        let nums: Vec<String> = b.iter().filter(|(_, v)| v.is_u64()).map(|(k, _)| k.clone()).collect();
+                        if !nums.is_empty() && rng.chance(1, 2) {
+                            let f = rng.pick(&nums).clone();
+                            let t = b[&f].to_string();
+                            b.insert(f, json!(t));
+                            cells.push("number_as_string");
+                        } else if let Some(f) = b.keys().next().cloned() {
                             b.insert(f, gen_wrong(rng, *rng.clone().pick(&["String", "u32", "bool", "Pt", "Vec<u32>"])));
                             cells.push("field_retyped");
                         }
